@@ -97,6 +97,7 @@ func runHistory(t *rapid.T, cfg PropCfg, col *Collector) {
 			col.mu.Unlock()
 			return true
 		}
+		o = excludeKnown(o, col)
 		if cfg.PreOp != nil && len(h.Steps) > 0 {
 			for _, v := range cfg.PreOp(h, o) {
 				fail(v)
@@ -308,3 +309,16 @@ func firstLines(s string, n int) string {
 // excludeOverflow switches the by-construction exclusion of the decimal-overflow region on. It is
 // off since that finding (F16) was repaired in the repository; the guard is kept for reference.
 var excludeOverflow = os.Getenv("VERIF_EXCLUDE_OVERFLOW") == "1"
+
+// excludeKnown keeps generated operations out of the regions of the known findings (counted in the
+// evidence as excluded_by_construction) so that the search continues behind them.
+func excludeKnown(o Op, col *Collector) Op {
+	if o.Kind == OpUpdateParams && o.ExtendedPeriod > 90000 {
+		// C07 known finding: an extension period that pushes an end time beyond year 9999
+		col.mu.Lock()
+		col.Excluded["C07/block-failed/end-time-beyond-year-9999"]++
+		col.mu.Unlock()
+		o.ExtendedPeriod = 90000
+	}
+	return o
+}
